@@ -167,14 +167,56 @@ class CFGBuilder(AstVisitor[BB | None]):
         bb.statements.append(node)
         return bb
 
+    def _build_assign_target(self, target: ast.expr, bb: BB) -> BB:
+        """Builds the expressions nested inside an assignment target.
+
+        The index of a subscript target (and the object that is subscripted or whose
+        attribute is set) are ordinary expressions that may contain control-flow, e.g.
+        `xs[0 if b else 1] = x` or `xs[(n := 1)] = x`. They have to go through the
+        `ExprBuilder` like every other expression in a BB.
+        """
+        match target:
+            case ast.Subscript():
+                target.value, bb = ExprBuilder.build(target.value, self.cfg, bb)
+                target.slice, bb = ExprBuilder.build(target.slice, self.cfg, bb)
+            case ast.Attribute():
+                target.value, bb = ExprBuilder.build(target.value, self.cfg, bb)
+            case ast.Tuple(elts=elts) | ast.List(elts=elts):
+                for elt in elts:
+                    bb = self._build_assign_target(elt, bb)
+            case ast.Starred(value=value):
+                bb = self._build_assign_target(value, bb)
+        return bb
+
     def visit_Assign(self, node: ast.Assign, bb: BB, jumps: Jumps) -> BB | None:
-        return self._build_node_value(node, bb)
+        # Python evaluates the right-hand side first, then the targets left to right
+        node.value, bb = ExprBuilder.build(node.value, self.cfg, bb)
+        for target in node.targets:
+            bb = self._build_assign_target(target, bb)
+        bb.statements.append(node)
+        return bb
 
     def visit_AugAssign(self, node: ast.AugAssign, bb: BB, jumps: Jumps) -> BB | None:
-        return self._build_node_value(node, bb)
+        # For augmented assignments the target is evaluated before the right-hand side
+        bb = self._build_assign_target(node.target, bb)
+        # `xs[i] += v` is later expanded to `xs[i] = xs[i] + v`, which mentions the index
+        # twice. Store the index in a temporary so that it is only evaluated once.
+        if isinstance(node.target, ast.Subscript) and not isinstance(
+            node.target.slice, ast.Name | ast.Constant
+        ):
+            tmp = next(tmp_vars)
+            ExprBuilder._tmp_assign(tmp, node.target.slice, bb)
+            node.target.slice = make_var(tmp, node.target.slice)
+        node.value, bb = ExprBuilder.build(node.value, self.cfg, bb)
+        bb.statements.append(node)
+        return bb
 
     def visit_AnnAssign(self, node: ast.AnnAssign, bb: BB, jumps: Jumps) -> BB | None:
-        return self._build_node_value(node, bb)
+        if node.value is not None:
+            node.value, bb = ExprBuilder.build(node.value, self.cfg, bb)
+        bb = self._build_assign_target(node.target, bb)
+        bb.statements.append(node)
+        return bb
 
     def visit_Expr(self, node: ast.Expr, bb: BB, jumps: Jumps) -> BB | None:
         # This is an expression statement where the value is discarded
